@@ -129,6 +129,16 @@ class Run:
             if r["coverage"] and r["coverage"].get(a, 0) == 0:
                 raise ToolError("vacuity guard: action %s never taken in %s/%s" % (a, r["module"], r["cfg"]))
 
+    def add_apalache(self, module, inv, length=0, init=None):
+        """an unbounded-integer obligation discharged by Apalache (design level)"""
+        r = tlc.apalache(module, inv, length=length, init=init)
+        self.extra.setdefault("apalache", []).append({k: r[k] for k in ("module", "inv", "length", "outcome")} | {"wall_s": round(r["wall"], 1)})
+        if not r["ok"]:
+            path = os.path.join(REPLAYS, "%s_apalache_%s_%s.txt" % (self.prop, module, inv))
+            open(path, "w").write(r.get("text", ""))
+            self.violations.append(("design:apalache:%s/%s" % (module, inv), path))
+        return r["ok"]
+
     def design_violation(self, r):
         """TLC found a counterexample in the specification itself (not in the code)."""
         path = os.path.join(REPLAYS, "%s_design_%s.txt" % (self.prop, r["violation"]["name"]))
